@@ -24,7 +24,63 @@ const (
 	O_TRUNC  = simfs.O_TRUNC
 )
 
-var ErrNotExist = os.ErrNotExist
+var (
+	ErrNotExist = os.ErrNotExist
+	ErrExist    = os.ErrExist
+)
+
+// file mode bits (the redirected file refers to them as os.ModeXxx)
+const (
+	ModeDir     = os.ModeDir
+	ModeSymlink = os.ModeSymlink
+	ModePerm    = os.ModePerm
+	ModeType    = os.ModeType
+)
+
+func IsExist(err error) bool { return os.IsExist(err) }
+
+// Stat follows symbolic links, Lstat does not.
+func Stat(name string) (FileInfo, error) {
+	if !simfs.Cur.Exists(name) {
+		return nil, &fs.PathError{Op: "stat", Path: name, Err: os.ErrNotExist}
+	}
+	return info{name: baseName(name), dir: simfs.Cur.IsDir(name), size: simfs.Cur.Size(name)}, nil
+}
+
+func Lstat(name string) (FileInfo, error) {
+	if _, ok := simfs.Cur.IsLink(name); ok {
+		return info{name: baseName(name), link: true}, nil
+	}
+	return Stat(name)
+}
+
+func Symlink(oldname, newname string) error { return simfs.Cur.Symlink(oldname, newname) }
+func Readlink(name string) (string, error) {
+	if t, ok := simfs.Cur.IsLink(name); ok {
+		return t, nil
+	}
+	return "", &fs.PathError{Op: "readlink", Path: name, Err: os.ErrInvalid}
+}
+func WriteFile(name string, data []byte, perm FileMode) error {
+	f, err := OpenFile(name, O_WRONLY|O_CREATE|O_TRUNC, perm)
+	if err != nil {
+		return err
+	}
+	if _, err := f.Write(data); err != nil {
+		return err
+	}
+	return f.Close()
+}
+func Getenv(k string) string { return os.Getenv(k) }
+
+func baseName(p string) string {
+	for i := len(p) - 1; i >= 0; i-- {
+		if p[i] == '/' {
+			return p[i+1:]
+		}
+	}
+	return p
+}
 
 func IsNotExist(err error) bool { return os.IsNotExist(err) }
 
@@ -44,12 +100,21 @@ func ReadFile(p string) ([]byte, error)      { return simfs.Cur.ReadFile(p) }
 type info struct {
 	name string
 	dir  bool
+	link bool
 	size int64
 }
 
-func (i info) Name() string       { return i.name }
-func (i info) Size() int64        { return i.size }
-func (i info) Mode() fs.FileMode  { return 0o644 }
+func (i info) Name() string { return i.name }
+func (i info) Size() int64  { return i.size }
+func (i info) Mode() fs.FileMode {
+	switch {
+	case i.link:
+		return 0o777 | fs.ModeSymlink
+	case i.dir:
+		return 0o755 | fs.ModeDir
+	}
+	return 0o644
+}
 func (i info) ModTime() time.Time { return time.Time{} }
 func (i info) IsDir() bool        { return i.dir }
 func (i info) Sys() any           { return nil }
